@@ -221,6 +221,18 @@ func (s *kstore) exec(body *redis.RespValue) *redis.RespValue {
 			}
 		}
 		return &redis.RespValue{Type: redis.Array, Array: out}
+	case "hscan": // cursor 0, everything in one page: a nested array
+		v, ex := s.m[k]
+		if ex && !v.isHash {
+			return rErr("WRONGTYPE")
+		}
+		out := []redis.RespValue{}
+		if ex {
+			for _, fv := range v.fields {
+				out = append(out, *rBulk(fv[0]), *rBulk(fv[1]))
+			}
+		}
+		return &redis.RespValue{Type: redis.Array, Array: []redis.RespValue{*rBulk([]byte("0")), {Type: redis.Array, Array: out}}}
 	}
 	return rErr("ERR unknown")
 }
@@ -476,7 +488,7 @@ func init() {
 				if r.chance(1, 3) {
 					mv = "1"
 				}
-				switch r.intn(16) {
+				switch r.intn(17) {
 				case 0:
 					thr = []int{0, 1, 8, 16, 64, 100, 1000}[r.intn(7)]
 					ops = append(ops, []string{"cfg", strconv.Itoa(r.intn(2)), strconv.Itoa(thr)})
@@ -518,6 +530,8 @@ func init() {
 					ops = append(ops, []string{"r", "0", hx([]byte("hget")), hx([]byte(k)), hx([]byte(fields[r.intn(3)]))})
 				case 14:
 					ops = append(ops, []string{"r", "0", hx([]byte("hmget")), hx([]byte(k)), hx([]byte(fields[r.intn(3)])), hx([]byte(fields[r.intn(3)]))})
+				case 15:
+					ops = append(ops, []string{"r", "0", hx([]byte("hscan")), hx([]byte(k)), hx([]byte("0"))})
 				default:
 					ops = append(ops, []string{"r", "0", hx([]byte("hgetall")), hx([]byte(k))})
 				}
